@@ -1443,6 +1443,35 @@ func propC01(r *Run) {
 		r.op("gb.qualifier " + encRegistry(registry{}) + " x " + encStr(s))
 		r.op("gb.qualifier " + encRegistry(registry{}) + " x " + encStr(s+"\n"))
 	}
+	// the loop of quotedQualifierParser that takes the continuation indent out of a value (one pass
+	// since 2612fae, F39): a line indented by twice the prefix (stripped twice, as the loop it replaced
+	// did), a prefix that holds a line feed, and random values over line feed / blank / letter under
+	// random NON-EMPTY prefixes (the empty prefix with a line feed in the value, where the old loop did
+	// not end, is a guarded case of C07: `qual.empty`, harness/props_c07_time.go)
+	for _, c := range [][2]string{
+		{"  ", "a\n    b\n  c"}, {"  ", "\n  \n    \n      x"}, {" ", "\n\n \n  \n   "}, {"x\ny", "\nx\nx\nyy"},
+		{"\n", "\n\n\na\n\n"}, {"ab", "\nab\naab\nabab\na"}, {"", "ab  c"},
+	} {
+		r.op("gb.qualifier " + encRegistry(registry{}) + " " + encStr(c[0]) + " " + encStr(c[0]+"/note=\""+c[1]+"\"\n"))
+		r.count("qualifier/strip-loop")
+	}
+	nStrip := 150
+	if !quick {
+		nStrip = 3000
+	}
+	for i := 0; i < nStrip; i++ {
+		alpha := "\n  a"
+		pre := make([]byte, 1+r.rng.intn(3))
+		for j := range pre {
+			pre[j] = alpha[r.rng.intn(len(alpha))]
+		}
+		val := make([]byte, r.rng.intn(24))
+		for j := range val {
+			val[j] = alpha[r.rng.intn(len(alpha))]
+		}
+		r.op("gb.qualifier " + encRegistry(registry{}) + " " + encStr(string(pre)) + " " + encStr(string(pre)+"/note=\""+string(val)+"\"\n"))
+		r.count("qualifier/strip-loop")
+	}
 
 	// --- hand-built Props with a repeated qualifier name (F31, props_c01_dup.go) ------
 	nDup := 300
